@@ -13,6 +13,9 @@ OPS = [(m.group(1), int(m.group(2))) for m in re.finditer(r'\bE\((\w+), ([01])\)
 OPS = [o for o in OPS if o[0] != 'N']
 CURVES = ['NIST_P256', 'BSI_P256', 'SM2_P256', 'SECG_K256', 'SM9_P256', 'BN_P256']
 SIZES = ['norm', 'norm', 'norm', 'small', 'half', 'big', 'full', 'zero', 'one', 'order']
+# scalar classes of the quantifier: reduce to zero only after reduction, negative, zero digits inside recodings
+SCALAR_SIZES = ['order', 'order2', 'order3', 'negord', 'zdig', 'lowzero', 'pow2', 'ones', 'zero', 'one']
+SCALAR_OPS = ('ep_mul', 'g1_mul', 'g2_mul', 'gt_exp', 'bn_rec', 'bn_mxp', 'fp_exp')
 # ops whose input classes must stay inside the documented domain
 SMALL_ONLY = {'bn_gen_prime_small', 'bn_factor', 'cp_rsa_gen_small'}
 
@@ -28,6 +31,8 @@ def gen_plan(rng, tier, config, opts):
         curve = 'BN_P256' if (pc or rng.chance(0.35)) else rng.choice(CURVES)
         lines.append('CURVE ' + curve)
         size = rng.choice(SIZES + (['full', 'full', 'edge', 'edge', 'over', 'big'] if capacity else []))
+        if name.startswith(SCALAR_OPS) and rng.chance(0.5):
+            size = rng.choice(SCALAR_SIZES)
         if not capacity and (name.startswith('bn_mul') or name.startswith('bn_sqr') or name in ('bn_lcm',)):
             if size == 'full':
                 size = 'big'
@@ -73,6 +78,10 @@ def check(plan, transcript, config, opts):
                 out.violate('C08', 'C08|never-written-storage|%s' % cur,
                             '%s: two fault-free executions on the same inputs that differ only in the garbage pattern of '
                             'never-written heap/stack storage gave different results (%s)' % (cur, ln[:300]))
+            if d.get('chain', '1') != '1':
+                out.violate('C08', 'C08|handler-chain-left-dangling|%s' % cur,
+                            '%s returned normally but left the handler chain pointing into its own returned frame: the next '
+                            'reported error reads dead stack storage (%s)' % (cur, ln[:200]))
             if d['thrown'] != '0' or d['code'] != '0':
                 out.probe('baseline-reports-error')
             out.probe('allocations-counted', int(d['A']))
